@@ -105,7 +105,7 @@ pub fn plan(quick: bool) -> PairPlan {
     let pos: Vec<u32> = vec![1, 2, 26, 27, 50, 51];
     let mut hf: Vec<u64> = if quick { run_bounded_at(52, 2, &pos) } else { run_bounded(52, 2) };
     if !quick {
-        hf.extend(run_bounded_at(52, 3, &pos));
+        hf.extend(run_bounded_at(52, 3, &[1, 26, 51]));
         hf.sort();
         hf.dedup();
     }
@@ -113,12 +113,12 @@ pub fn plan(quick: bool) -> PairPlan {
     hf.extend(weyl_fracs(if quick { 20 } else { 48 }, 5));
     // mantissas slightly above a power of two (top bits zero, generic tail): products 1.0x * 1.0y
     hf.extend(weyl_fracs(if quick { 12 } else { 32 }, 9).into_iter().map(|f| f >> 6));
-    let gaps: Vec<i32> = if quick { vec![0, 1, 2, 10, 52, 53, 54] } else { vec![0, 1, 2, 3, 10, 30, 52, 53, 54, 200] };
+    let gaps: Vec<i32> = if quick { vec![0, 1, 2, 10, 52, 53, 54] } else { vec![0, 1, 2, 10, 30, 52, 53, 54, 200] };
     let mut lf: Vec<u64> = run_bounded(52, 1);
     lf.push(1);
     lf.push((1u64 << 52) - 2);
     lf.extend(gen_fracs(1));
-    lf.extend(weyl_fracs(if quick { 1 } else { 3 }, 6));
+    lf.extend(weyl_fracs(1, 6));
     let ua = unit_alphabet(&hf, &gaps, &lf, false);
     let ub = unit_alphabet(&hf, &gaps, &lf, true);
     PairPlan {
